@@ -1,8 +1,8 @@
 package sstable
 
 import (
-	"github.com/cockroachdb/pebble/sstable/block"
 	sym "github.com/cockroachdb/pebble/internal/verifsym"
+	"github.com/cockroachdb/pebble/sstable/block"
 )
 
 var hFormats = []TableFormat{
@@ -80,4 +80,3 @@ func hFooterCRC(buf []byte, format TableFormat) uint32 {
 	}
 	return hCRC2(buf[:o], buf[o+checksumLen:])
 }
-
